@@ -7,7 +7,12 @@ Tie: (a) random operation histories on a real linker; after every step predict()
 linker built from the saved model on the current data (oracle = the property itself); (b) the ordered
 request / named-store / drop / invalidate events observed in the real DatabaseAPI are replayed through the compiled Lean
 state machine, which must predict every cache hit and miss; (c) realtime compare_records: every call sequence of
-length <= 3 over settings objects/dicts x include_found_by_blocking_rules x cache mode, with vs without cache.
+length <= 3 over settings objects/dicts x include_found_by_blocking_rules x cache mode, with vs without cache (extended cases: settings
+needing term frequencies, settings given as paths, one sequence over DatabaseAPIs of two dialects); (d) new-record histories:
+register_term_frequency_lookup (terms the data lack, values unrelated to the data) mixed with compare_two_records,
+find_matches_to_new_records, compute_tf_table, predict, training, invalidate_cache ... WITHOUT a normalising predict() after every
+step; the output of every new-record / tf-table / deterministic_link call is compared with the same call on a fresh linker and the
+term frequencies in it are recomputed by hand.
 """
 from __future__ import annotations
 
@@ -130,24 +135,417 @@ def gen_history_case(rng, ops=None, length=None):
     return {"world": world, "history": H.gen_history(rng, world, length=length or rng.randint(2, 7), ops=ops), "tag": "history"}
 
 
+# --------------------------------------------------------------------------- (d) new-record histories, outputs observed
+# Family: histories mixing register_term_frequency_lookup (terms absent from the data / missing data terms / values different from
+# the data frequencies), compare_two_records, find_matches_to_new_records, compute_tf_table, deterministic_link with predict, training,
+# invalidate_cache, ... in any order.  Unlike (a) the linker is NOT normalised by a predict() after every step (that call materialises
+# __splink__df_concat_with_tf and so hides every "nothing ran in between" state); instead the OUTPUT of every new-record /
+# tf-table / deterministic_link call is compared with the same call on a fresh linker (new database, current data, saved model, same
+# lookups), and the term frequencies in the output are recomputed by hand from the lookups / the data.
+ABSENT_TERMS = ["dee", "zed", "", "Ann"]  # never in the generated data ("dee" can enter it through mutate_invalidate)
+NEWREC_OPS = (["register_tf_lookup"] * 5 + ["compare_two"] * 5 + ["find_matches"] * 4 + ["predict"] * 2 + ["compute_tf"] * 2
+              + ["predict_thr", "em", "estimate_u", "estimate_m_label", "estimate_prior", "invalidate", "mutate_invalidate", "delete_splink_tables",
+                 "deterministic_link", "cluster"])
+
+
+def tf_columns(world):
+    return sorted({c["col"] for c in world["comparisons"] if any("tf" in l for l in c["levels"])})
+
+
+def _dom(col):
+    return c02.STR_DOM[:5] if col == "a" else c02.STR_DOM[:4]
+
+
+def gen_lookup(rng, col):
+    """A registered lookup: some of the data's terms missing, 1-3 terms the data never contain, values unrelated to the data frequencies
+    (boundaries 1.0 and 1e-6 included)."""
+    table = {v: round(rng.uniform(0.01, 0.6), 3) for v in _dom(col) if rng.random() < 0.7}
+    for v in rng.sample(ABSENT_TERMS, rng.randint(1, 3)):
+        table[v] = rng.choice([1.0, 1e-06, 0.004, round(rng.uniform(0.001, 0.3), 4)])
+    return table
+
+
+def gen_records(rng, n_left, n_right, tfcols, lookups, allow_null, first_id):
+    """Two groups of new records; on a TF column both groups mostly carry the SAME term (exact match -> the TF adjustment applies),
+    and that term is mostly one the data do not contain."""
+    shared = {}
+    for col in ("a", "b"):
+        only_lookup = [t for t in lookups.get(col, {}) if t not in _dom(col)]
+        shared[col] = rng.choice(only_lookup) if only_lookup and rng.random() < 0.5 else rng.choice(list(_dom(col)) + ABSENT_TERMS)
+    recs = []
+    for k in range(n_left + n_right):
+        r = {"unique_id": first_id + k}
+        for col in ("a", "b"):
+            x = rng.random()
+            r[col] = shared[col] if x < 0.75 else (None if allow_null and x < 0.83 else rng.choice(list(_dom(col)) + ABSENT_TERMS))
+        r["c"] = rng.choice(c02.INT_DOM)
+        r["d"] = rng.choice(["p", "q"])
+        r["lab"] = None
+        recs.append(r)
+    return recs[:n_left], recs[n_left:]
+
+
+def gen_newrec_case(rng):
+    for _ in range(20):
+        world = H.gen_world(rng)
+        if tf_columns(world):
+            break
+    else:
+        # no TF column in 20 draws: give the exact level of the first string comparison one
+        eq = next(l for l in world["comparisons"][0]["levels"] if l["kind"] == "eq")
+        eq["tf"] = {"weight": 1.0, "minU": 0.0}
+    tfcols = tf_columns(world)
+    hist = []
+    lookups: dict = {}
+    if rng.random() < 0.75:
+        for col in tfcols:
+            if rng.random() < 0.8:
+                lookups[col] = gen_lookup(rng, col)
+                hist.append({"op": "register_tf_lookup", "p": {"col": col, "table": lookups[col], "overwrite": rng.choice([True, False, None])}})
+    last_cmp = None
+    for op in [rng.choice(NEWREC_OPS) for _ in range(rng.randint(3, 7))]:
+        if op == "register_tf_lookup":
+            col = rng.choice(tfcols)
+            lookups[col] = gen_lookup(rng, col)
+            hist.append({"op": op, "p": {"col": col, "table": lookups[col], "overwrite": rng.choice([True, False, None])}})
+        elif op == "compute_tf":
+            hist.append({"op": op, "p": {"col": rng.choice(tfcols)}})
+        elif op == "compare_two":
+            if last_cmp is not None and rng.random() < 0.4:
+                hist.append(json.loads(json.dumps(last_cmp)))  # the very same call again, later in the history
+                continue
+            form = rng.choice(["dict", "dict", "list", "frame"])
+            n1, n2 = (1, 1) if form == "dict" else (rng.randint(1, 2), rng.randint(1, 2))
+            r1, r2 = gen_records(rng, n1, n2, tfcols, lookups, allow_null=(form == "frame"), first_id=2001)
+            if rng.random() < 0.2:
+                # records carrying their own term frequency (documented: overrides every lookup), on one side or both
+                col = rng.choice(tfcols)
+                for side in ([r1], [r2], [r1, r2])[rng.randrange(3)]:
+                    for r in side:
+                        r[f"tf_{col}"] = rng.choice([0.5, 0.02])
+            last_cmp = {"op": op, "p": {"r1": r1, "r2": r2, "form": form, "flag": rng.random() < 0.3}}
+            hist.append(last_cmp)
+        elif op == "find_matches":
+            form = rng.choice(["frame", "frame", "table", "list"])
+            recs, _ = gen_records(rng, rng.randint(1, 3), 0, tfcols, lookups, allow_null=(form != "list"), first_id=1000)
+            hist.append({"op": op, "p": {"records": recs, "form": form, "rules": rng.choice([[], ["l.d = r.d"], "l.d = r.d", ["l.a = r.a", "l.d = r.d"]]),
+                                         "thr": rng.choice([-30, -30, None, 0.0])}})
+        elif op == "mutate_invalidate":
+            hist.append({"op": op, "p": {"new_row": {"unique_id": 500 + len(hist), "a": rng.choice(c02.STR_DOM[:6]), "b": rng.choice(c02.STR_DOM[:4]),
+                                                      "c": rng.choice(c02.INT_DOM), "d": rng.choice(["p", "q"]), "lab": None}}})
+            lookups = {}
+        else:
+            hist.extend(H.gen_history(rng, world, length=1, ops=[op]))
+            if op == "invalidate":
+                lookups = {}
+    for st in hist:
+        st["check_predict"] = rng.random() < 0.25
+    hist[-1]["check_predict"] = True
+    return {"world": world, "history": hist, "tag": "newrec"}
+
+
+def _rec_types(recs):
+    t = dict(H.TYPES)
+    for r in recs:
+        for k in r:
+            if k.startswith("tf_"):
+                t[k] = "float"
+    return t
+
+
+def _lookup_frame(col, table):
+    from harness import impl
+
+    return impl.typed_frame([{col: v, f"tf_{col}": t} for v, t in table.items()], {col: "str", f"tf_{col}": "float"})
+
+
+def canon_rows(records):
+    out = {}
+    for r in records:
+        key = f"{r['unique_id_l']}-{r['unique_id_r']}"
+        if key in out:
+            key += f"#dup{len(out)}"
+        out[key] = {k: (None if isinstance(v, float) and v != v else v) for k, v in r.items()}
+    return out
+
+
+def newrec_call(linker, step):
+    """The observed call itself (used on the linker with history and on the fresh linker alike)."""
+    from harness import impl
+
+    op, p = step["op"], step["p"]
+    if op == "compare_two":
+        def arg(recs):
+            if p["form"] == "dict":
+                return dict(recs[0])
+            if p["form"] == "list":
+                return [dict(r) for r in recs]
+            return impl.typed_frame(recs, _rec_types(recs))
+
+        return canon_rows(linker.inference.compare_two_records(arg(p["r1"]), arg(p["r2"]), include_found_by_blocking_rules=p["flag"]).as_record_dict())
+    if op == "find_matches":
+        recs = p["records"]
+        if p["form"] == "list":
+            arg = [dict(r) for r in recs]
+        else:
+            arg = impl.typed_frame(recs, _rec_types(recs))
+            if p["form"] == "table":
+                linker.table_management.register_table(arg, "user_new_records", overwrite=True)
+                arg = "user_new_records"
+        kw = {} if p["thr"] is None else {"match_weight_threshold": p["thr"]}
+        return canon_rows(linker.inference.find_matches_to_new_records(arg, blocking_rules=p["rules"], **kw).as_record_dict())
+    if op == "compute_tf":
+        col = p["col"]
+        return {str(r[col]): {"tf": r[f"tf_{col}"]} for r in linker.table_management.compute_tf_table(col).as_record_dict()}
+    if op == "deterministic_link":
+        return {f"{r['unique_id_l']}-{r['unique_id_r']}": {"match_key": str(r["match_key"])} for r in linker.inference.deterministic_link().as_record_dict()}
+    raise ValueError(op)
+
+
+def fresh_linker(linker, world, state, computed=()):
+    """A linker without history: new database, current data, the saved model, the same registered lookups; `computed` = TF columns
+    for which compute_tf_table is called (the documented way to make data-derived term frequencies available to new-record calls)."""
+    from harness import impl
+
+    model = json.loads(json.dumps(linker.misc.save_model_to_json(out_path=None)))
+    l2 = H.make_linker(dict(world, rows=H.current_rows(world, state)), impl.make_api(world["engine"], threads=2), settings=model)
+    for col, table in state.get("lookups", {}).items():
+        l2.table_management.register_term_frequency_lookup(_lookup_frame(col, table), col, overwrite=True)
+    for col in computed:
+        l2.table_management.compute_tf_table(col)
+    return l2
+
+
+def diff_rows(a, b, what_b="fresh linker"):
+    if set(a) != set(b):
+        return f"row sets differ: only with history {sorted(set(a) - set(b))[:3]}, only {what_b} {sorted(set(b) - set(a))[:3]}"
+    for k in a:
+        if set(a[k]) != set(b[k]):
+            return f"row {k}: columns differ: only with history {sorted(set(a[k]) - set(b[k]))}, only {what_b} {sorted(set(b[k]) - set(a[k]))}"
+        for col in a[k]:
+            x, y = a[k][col], b[k][col]
+            if isinstance(x, bool) or isinstance(y, bool):
+                same = bool(x) == bool(y) and x is not None and y is not None
+            elif isinstance(x, float) or isinstance(y, float):
+                same = core.close(x, y, 1e-9, 1e-12)
+            else:
+                same = x == y
+            if not same:
+                return f"row {k} column {col}: {x} (after the history) vs {y} ({what_b})"
+    return None
+
+
+def hand_tf_check(step, rows, world, state):
+    """Naive oracle on the real output: the term frequency attached to each side of each output row, recomputed by hand.
+    Source per TF column: a value the record itself carries > the registered lookup (NULL for a term it lacks) > the data frequency
+    count(term)/count(non-null) (for compare_two_records possibly 'not available' = NULL: documented, a warning is logged)."""
+    op, p = step["op"], step["p"]
+    lookups = state.get("lookups", {})
+    data = H.current_rows(world, state)
+    by_id = {}
+    if op == "compare_two":
+        sides = {"l": p["r1"], "r": p["r2"]}
+    else:
+        sides = {"l": data, "r": p["records"]}
+    for sfx, recs in sides.items():
+        by_id[sfx] = {r["unique_id"]: r for r in recs}
+    for key, row in rows.items():
+        for col in tf_columns(world):
+            for sfx in ("l", "r"):
+                name = f"tf_{col}_{sfx}"
+                if name not in row:
+                    continue
+                rec = by_id[sfx].get(row[f"unique_id_{sfx}"])
+                if rec is None:
+                    return f"row {key}: no input record with unique_id {row[f'unique_id_{sfx}']} on side {sfx}"
+                term = rec.get(col)
+                if op == "compare_two" and any(f"tf_{col}" in r for r in sides[sfx]):
+                    allowed, src = [rec.get(f"tf_{col}")], "the value the record carries"
+                elif col in lookups:
+                    allowed, src = [lookups[col].get(term) if term is not None else None], "the registered lookup"
+                else:
+                    vals = [r[col] for r in data if r[col] is not None]
+                    freq = (vals.count(term) / len(vals)) if (term is not None and term in vals) else None
+                    allowed, src = [freq], "the data frequency"
+                    if op == "compare_two":
+                        allowed.append(None)
+                if not any(core.close(row[name], e, 1e-9, 1e-12) for e in allowed):
+                    return f"row {key}: {name} = {row[name]} for term {term!r}, by hand from {src}: {allowed[0]}"
+    return None
+
+
+def subsets(xs):
+    out = [[]]
+    for x in xs:
+        out += [s + [x] for s in out]
+    return sorted(out, key=lambda s: (0 if not s else 1 if len(s) == len(xs) else 2, s))
+
+
+def observe_output(linker, world, step, state, mine):
+    """Verdict for one observed call: (violation text | None, which reference matched)."""
+    op = step["op"]
+    if op in ("compare_two", "find_matches"):
+        v = hand_tf_check(step, mine, world, state)
+        if v:
+            return "term frequency of a new record differs from the hand computation: " + v, None
+    unreg = [c for c in tf_columns(world) if c not in state.get("lookups", {})]
+    # data-derived term frequencies of a column WITHOUT a registered lookup are available to compare_two_records only once something
+    # computed them (documented; a warning is logged otherwise): the references are the fresh linkers with compute_tf_table() called
+    # for each subset of those columns.  Columns WITH a lookup have exactly one answer.  The other calls compute what they need.
+    cands = subsets(unreg) if op == "compare_two" else [[]]
+    first = None
+    for comp in cands:
+        try:
+            ref = newrec_call(fresh_linker(linker, world, state, comp), step)
+        except Exception as e:  # noqa: BLE001
+            import traceback
+
+            if f'File "{core.REPO}/' not in traceback.format_exc():
+                raise
+            d = f"the call succeeded after the history but raised on the fresh linker: {type(e).__name__}: {str(e)[:160]}"
+        else:
+            d = diff_rows(mine, ref)
+        if d is None:
+            return None, ("lookups only" if not comp else "lookups + compute_tf_table(" + ",".join(comp) + ")") if op == "compare_two" else "fresh"
+        first = first or d
+    return f"{op} after the history differs from every fresh linker ({len(cands)} tried): " + first, None
+
+
+OBSERVED = ("compare_two", "find_matches", "compute_tf", "deterministic_link")
+
+
+def run_newrec(case: dict) -> dict:
+    from harness import impl
+
+    world, hist = case["world"], case["history"]
+    api = impl.make_api(world["engine"], threads=2)
+    log = H.instrument(api)
+    linker = H.make_linker(world, api)
+    state: dict = {}
+    steps = []
+    for step in hist:
+        op, p = step["op"], step["p"]
+        rec = {"op": op}
+        mine = None
+        try:
+            if op == "register_tf_lookup":
+                kw = {} if p.get("overwrite") is None else {"overwrite": p["overwrite"]}
+                linker.table_management.register_term_frequency_lookup(_lookup_frame(p["col"], p["table"]), p["col"], **kw)
+                state.setdefault("lookups", {})[p["col"]] = p["table"]
+            elif op in OBSERVED and not (op == "deterministic_link" and not world["rules"]):
+                mine = newrec_call(linker, step)
+                rec["n_rows"] = len(mine)
+            else:
+                rec["result"] = H.apply_op(linker, world, step, state)
+        except Exception as e:  # noqa: BLE001
+            import traceback
+
+            if f'File "{core.REPO}/' not in traceback.format_exc():
+                raise
+            rec["raised"] = f"{type(e).__name__}: {str(e)[:200]}"
+            steps.append(rec)
+            break  # a raising call is C08's business; this history ends here
+        if mine is not None:
+            d, matched = observe_output(linker, world, step, state, mine)
+            if matched:
+                rec["reference"] = matched
+            if d:
+                rec["diff"] = d
+                steps.append(rec)
+                break
+        if linker._settings_obj._probability_two_random_records_match in (0, 0.0, 1, 1.0):
+            rec["excluded"] = "degenerate prior"  # as in (a): every scoring call then raises loudly; the history ends here
+            steps.append(rec)
+            break
+        if step.get("check_predict"):
+            mine_p = H.predict_rows(linker)
+            rec["n_pairs"] = len(mine_p)
+            d = diff_predict(mine_p, H.fresh_reference(linker, world, state))
+            if d:
+                rec["diff"] = d
+                steps.append(rec)
+                break
+        steps.append(rec)
+    return {"steps": steps, "events": [dict(e) for e in log["events"]], "phys": {k: list(v) for k, v in log["phys"].items()}}
+
+
+def run_case(case: dict) -> dict:
+    return run_newrec(case) if case.get("tag") == "newrec" else run_history(case)
+
+
+run_case_safe = core.safe(run_case)
+
+
+def newrec_shape(case):
+    """Counters: does the history hold a new-record call whose records carry (compare_two_records: on both sides) a term that a
+    registered lookup has and the data lack, and what ran last between the registration and that call?"""
+    data_terms = {col: {r[col] for r in case["world"]["rows"]} for col in ("a", "b")}
+    lookups: dict = {}
+    since_reg = []
+    shapes = set()
+    for st in case["history"]:
+        op, p = st["op"], st["p"]
+        if op == "register_tf_lookup":
+            lookups[p["col"]] = p["table"]
+            since_reg = []
+        elif op in ("invalidate", "mutate_invalidate"):
+            lookups = {}
+            if op == "mutate_invalidate":
+                for col in ("a", "b"):
+                    data_terms[col].add(p["new_row"][col])
+        elif op in ("compare_two", "find_matches"):
+            for col, table in lookups.items():
+                left = p["r1"] if op == "compare_two" else p["records"]
+                right = p["r2"] if op == "compare_two" else p["records"]
+                absent = [r[col] for r in left if r[col] in table and r[col] not in data_terms[col] and any(q[col] == r[col] for q in right)]
+                if absent:
+                    shapes.add(f"{op} of records carrying a lookup term the data lack; last operation since the registration: " + (since_reg[-1] if since_reg else "none"))
+        if op != "register_tf_lookup":
+            since_reg.append(op)
+            if st.get("check_predict"):
+                since_reg.append("predict")
+    return shapes
+
+
+
 # --------------------------------------------------------------------------- (c) realtime
-def realtime_case(rng):
-    world = H.gen_world(rng, engine=rng.choice(["duckdb", "sqlite"]), tf=False)
+def realtime_case(rng, extended=False):
+    """extended: the input families the plain cases never produce - settings that need term frequencies (the records carry tf_ values,
+    as the function's docstring asks), settings given as a str path / a pathlib.Path to a JSON file, and call sequences that use
+    the SAME settings objects with DatabaseAPIs of two dialects (the SQL cache is module-level and shared by all of them)."""
+    tf = extended and rng.random() < 0.6
+    world = H.gen_world(rng, engine=rng.choice(["duckdb", "sqlite"]), tf=tf)
     world["rules"] = ["l.d = r.d"]
     r1 = {"unique_id": 1, "a": rng.choice(c02.STR_DOM[:4]), "b": "ann", "c": 1, "d": "p", "lab": None}
     r2 = {"unique_id": 2, "a": rng.choice(c02.STR_DOM[:4]), "b": "anne", "c": 2, "d": rng.choice(["p", "q"]), "lab": None}
+    if tf:
+        r2["a"] = rng.choice([r1["a"], r2["a"]])
+        r2["b"] = rng.choice([r1["b"], r2["b"]])
+        for r in (r1, r2):
+            r["tf_a"], r["tf_b"] = rng.choice([0.5, 0.02, 1.0]), rng.choice([0.3, 0.004])
     # mix*: settings DICTS that hold library creator objects (not JSON-serialisable: the cache key takes its fall-back path);
     # same creator classes in the same positions, differing only in their arguments (column / thresholds / m probabilities)
     kinds = ["creatorA", "creatorB", "dictA", "dictB", "mixA", "mixB", "mixC"]
+    if extended:
+        kinds = ["creatorA", "creatorB", "dictA", "dictB", "mixA", "mixB", "strpathA", "strpathB", "PathA", "PathB"]
+    mixed = extended and rng.random() < 0.6
     seqs = []
-    for n in (1, 2, 3):
-        for combo in itertools.product(range(len(kinds) * 2), repeat=n):
-            seqs.append([(kinds[c // 2], bool(c % 2)) for c in combo])
-    rng.shuffle(seqs)
-    return {"world": world, "r1": r1, "r2": r2, "seqs": seqs[:40], "tag": "realtime"}
+    if extended:
+        for _ in range(20):
+            seqs.append([(rng.choice(kinds), rng.random() < 0.5, rng.choice(["duckdb", "sqlite"]) if mixed else world["engine"]) for _ in range(rng.randint(2, 4))])
+    else:
+        for n in (1, 2, 3):
+            for combo in itertools.product(range(len(kinds) * 2), repeat=n):
+                seqs.append([(kinds[c // 2], bool(c % 2)) for c in combo])
+        rng.shuffle(seqs)
+    return {"world": world, "r1": r1, "r2": r2, "seqs": seqs[:40], "tag": "realtime-extended" if extended else "realtime"}
 
 
 def run_realtime(case):
+    import os
+    import tempfile
+    from pathlib import Path
+
     from splink import SettingsCreator
     from splink.internals import realtime
 
@@ -163,6 +561,12 @@ def run_realtime(case):
     sdB = H.settings_dict(wB)
     for d in (sdA, sdB):
         d.pop("max_iterations", None); d.pop("em_convergence", None)
+    tmp = tempfile.mkdtemp(prefix="c07_rt_")
+    paths = {}
+    for name, d in (("A", sdA), ("B", sdB)):
+        paths[name] = os.path.join(tmp, f"settings_{name}.json")
+        with open(paths[name], "w") as f:
+            json.dump(d, f)
     out = []
     for seq in case["seqs"]:
         realtime._sql_cache = realtime.SQLCache()
@@ -175,14 +579,22 @@ def run_realtime(case):
 
         objs = {"creatorA": SettingsCreator(**json.loads(json.dumps(sdA))), "creatorB": SettingsCreator(**json.loads(json.dumps(sdB))),
                 "dictA": json.loads(json.dumps(sdA)), "dictB": json.loads(json.dumps(sdB)),
-                "mixA": mix("a", "b", [1], [0.9, 0.1]), "mixB": mix("b", "a", [2], [0.9, 0.1]), "mixC": mix("a", "b", [1], [0.6, 0.4])}
-        api = impl.make_api(world["engine"], threads=1)
+                "mixA": mix("a", "b", [1], [0.9, 0.1]), "mixB": mix("b", "a", [2], [0.9, 0.1]), "mixC": mix("a", "b", [1], [0.6, 0.4]),
+                "strpathA": paths["A"], "strpathB": paths["B"], "PathA": Path(paths["A"]), "PathB": Path(paths["B"])}
+        apis: dict = {}
         res = []
-        for kind, flag in seq:
-            with_cache = realtime.compare_records(case["r1"], case["r2"], objs[kind], api, use_sql_from_cache=True, include_found_by_blocking_rules=flag).as_record_dict()
-            without = realtime.compare_records(case["r1"], case["r2"], objs[kind], impl.make_api(world["engine"], threads=1), use_sql_from_cache=False, include_found_by_blocking_rules=flag).as_record_dict()
-            res.append({"call": [kind, flag], "cached": canon_row(with_cache), "uncached": canon_row(without)})
+        for call in seq:
+            kind, flag = call[0], call[1]
+            engine = call[2] if len(call) > 2 else world["engine"]
+            if engine not in apis:
+                apis[engine] = impl.make_api(engine, threads=1)
+            with_cache = realtime.compare_records(case["r1"], case["r2"], objs[kind], apis[engine], use_sql_from_cache=True, include_found_by_blocking_rules=flag).as_record_dict()
+            without = realtime.compare_records(case["r1"], case["r2"], objs[kind], impl.make_api(engine, threads=1), use_sql_from_cache=False, include_found_by_blocking_rules=flag).as_record_dict()
+            res.append({"call": list(call), "cached": canon_row(with_cache), "uncached": canon_row(without)})
         out.append(res)
+    import shutil
+
+    shutil.rmtree(tmp, ignore_errors=True)
     return {"runs": out}
 
 
@@ -209,8 +621,16 @@ def realtime_verdict(r):
 
 
 # --------------------------------------------------------------------------- driver
+def op_labels(hist):
+    """Operation names of a history; '+predict' marks a step of family (d) after which predict() ran as a checkpoint."""
+    return [s["op"] + ("+predict" if s.get("check_predict") else "") for s in hist]
+
+
 def classify(what):
-    for pat, cls in [("with the SQL cache", "realtime compare_records differs with its SQL cache"), ("(after the history)", "predict() after a history differs from a fresh linker"),
+    for pat, cls in [("with the SQL cache", "realtime compare_records differs with its SQL cache"),
+                     ("differs from the hand computation", "term frequency given to a new record differs from the registered lookup / data frequency (hand computation)"),
+                     ("differs from every fresh linker", "compare_two_records / find_matches_to_new_records / compute_tf_table / deterministic_link after a history differs from a fresh linker"),
+                     ("(after the history)", "predict() after a history differs from a fresh linker"),
                      ("pair sets differ", "predict() after a history differs from a fresh linker"), ("raised", "operation raised")]:
         if pat in what:
             return cls
@@ -224,6 +644,17 @@ def run(ctx: core.Ctx):
         "delete_tables_created_by_splink_from_db} on one linker over a real table (6-12 records, 2-3 comparisons, TF on exact levels), duckdb+sqlite; after EVERY step predict() is compared with a fresh linker "
         "(new database, current data, saved model, same registered lookups) and the observed cache events are replayed through the Lean state machine; "
         "(c) realtime compare_records: sampled call sequences of length 1-3 over 2 SettingsCreator objects + 2 plain dicts + 3 dicts holding library creator objects (same classes, different arguments) x both flag values, cached vs uncached. "
+        "(c') 4 extended realtime cases: settings that need term frequencies (records carry tf_ values), settings given as str path / pathlib.Path to a JSON file, "
+        "sequences of 2-4 calls that use the same settings objects with DatabaseAPIs of BOTH dialects (one module-level SQL cache); "
+        "(d) 60 new-record histories (thorough: 900) of 3-10 operations weighted towards register_term_frequency_lookup (lookups lacking some data terms, holding 1-3 terms the data "
+        "never contain - 'dee', 'zed', '', 'Ann' - with values unrelated to the data frequencies incl. 1.0 and 1e-6; overwrite True/False/default), compare_two_records (dict / list of 1-2 dicts / "
+        "typed frame with NULLs per side; both sides mostly carry the same - mostly data-absent - term on the TF columns; include_found_by_blocking_rules; records carrying their own tf_ value on one "
+        "or both sides; the same call repeated later), find_matches_to_new_records (frame / registered table name / list of dicts; rules [] / list / str; threshold -30 / default / 0.0), compute_tf_table, "
+        "predict, training, deterministic_link, cluster, invalidate_cache, mutate+invalidate (may add the absent term to the data), delete_tables; NO predict() after every step (it would materialise "
+        "__splink__df_concat_with_tf before every call) but at ~25% of the steps and at the end; oracle for (d): (1) the term frequency on each side of every output row is recomputed by hand: value carried "
+        "by the record > registered lookup (NULL for a missing term) > data frequency count/total (compare_two_records: or NULL when nothing computed it yet - documented); (2) the whole output (all columns) "
+        "equals the same call on a fresh linker (new database, current data, saved model, same lookups); for compare_two_records and TF columns WITHOUT a lookup the fresh linker is tried with "
+        "compute_tf_table() called for each subset of those columns (availability of data-derived frequencies is the only documented history dependence); "
         "non-trivial = history with >= 3 steps that reuses a cached table (at least one hit) / any realtime case; distinct = hash of the case."
     )
     ctx.assumptions = [
@@ -243,9 +674,11 @@ def run(ctx: core.Ctx):
         n_hist = ctx.budget(70, 1200)
         cases = graphs.load_corpus(PROP) + [gen_history_case(rng, length=rng.randint(2, 12 if ctx.thorough else 7)) for _ in range(n_hist)]
         cases += [realtime_case(rng) for _ in range(ctx.budget(6, 60))]
+        cases += [realtime_case(rng, extended=True) for _ in range(ctx.budget(4, 40))]
+        cases += [gen_newrec_case(rng) for _ in range(ctx.budget(60, 900))]
     hist_cases = [c for c in cases if "seqs" not in c]
     rt_cases = [c for c in cases if "seqs" in c]
-    res = core.pmap(run_history_safe, hist_cases, chunksize=1)
+    res = core.pmap(run_case_safe, hist_cases, chunksize=1)
     rt_res = core.pmap(run_realtime_safe, rt_cases, chunksize=1)
     concrete, broken = [], []
     reqs, owners = [], []
@@ -257,8 +690,25 @@ def run(ctx: core.Ctx):
         ctx.case({"world": c["world"], "history": c["history"]}, len(r["steps"]) >= 3 and hits >= 1,
                  sample={"history": [s["op"] for s in c["history"]], "engine": c["world"]["engine"], "steps": r["steps"], "n_cache_events": len(r["events"])} if len(c["history"]) <= 4 else None)
         ctx.count("engine", c["world"]["engine"]); ctx.count("history_length", len(c["history"]))
+        fam = "newrec (outputs observed)" if c.get("tag") == "newrec" else "predict after every step"
+        ctx.count("family", fam)
+        if c.get("tag") == "newrec":
+            for sh in newrec_shape({"world": c["world"], "history": c["history"][: len(r["steps"])]}) or ["(none of the lookup-term-absent shapes)"]:
+                ctx.count("newrec_shape", sh)
+            for st in c["history"][: len(r["steps"])]:
+                if st["op"] == "compare_two":
+                    ctx.count("newrec_compare_two_args", f"{st['p']['form']}, include_found_by_blocking_rules={st['p']['flag']}"
+                              + (", records carry tf_ values" if any(k.startswith("tf_") for q in st["p"]["r1"] + st["p"]["r2"] for k in q) else ""))
+                elif st["op"] == "find_matches":
+                    ctx.count("newrec_find_matches_args", f"{st['p']['form']}, rules={'str' if isinstance(st['p']['rules'], str) else len(st['p']['rules'])}, threshold={st['p']['thr']}")
+                elif st["op"] == "register_tf_lookup":
+                    ctx.count("newrec_lookup_overwrite_arg", st["p"].get("overwrite"))
         for s in r["steps"]:
-            ctx.count("op", s["op"])
+            ctx.count("newrec_op" if c.get("tag") == "newrec" else "op", s["op"])
+            if "reference" in s:
+                ctx.count("newrec_reference_matched", f"{s['op']}: {s['reference']}")
+            if "n_pairs" in s and c.get("tag") == "newrec":
+                ctx.count("newrec_predict_checkpoints", "predict() compared with a fresh linker")
             if "raised" in s:
                 ctx.count("op_raised", s["op"] + ": " + s["raised"][:60])
             if "excluded" in s:
@@ -267,7 +717,7 @@ def run(ctx: core.Ctx):
         bad = next((s for s in r["steps"] if "diff" in s), None)
         if bad:
             idx = r["steps"].index(bad)
-            concrete.append((c, f"after step {idx + 1} ({bad['op']}) of {[s['op'] for s in c['history'][: idx + 1]]}: {bad['diff']}", r))
+            concrete.append((c, f"after step {idx + 1} ({bad['op']}) of {op_labels(c['history'][: idx + 1])}: {bad['diff']}", r))
             continue
         req, obs = trace_request(r["events"], {k: tuple(v) for k, v in r["phys"].items()})
         if req is not None:
@@ -286,6 +736,11 @@ def run(ctx: core.Ctx):
             continue
         ctx.case({"world": c["world"], "seqs": c["seqs"]}, True, sample={"realtime_sequences": c["seqs"][:3]})
         ctx.count("realtime_sequences", len(c["seqs"]))
+        for seq in c["seqs"]:
+            ctx.count("realtime_dialects_in_one_sequence", len({call[2] if len(call) > 2 else c["world"]["engine"] for call in seq}))
+            for call in seq:
+                ctx.count("realtime_settings_form", "".join(ch for ch in call[0] if not ch.isupper() or ch == "P"))
+        ctx.count("realtime_settings_need_tf", bool(tf_columns(c["world"])))
         v = realtime_verdict(r)
         if v:
             concrete.append((c, v, None))
@@ -297,10 +752,10 @@ def run(ctx: core.Ctx):
         reported.add(cls)
         if "history" in c and not c.get("tag", "").startswith("corpus"):
             c = shrink_history(c)
-            rr = run_history_safe(c)
+            rr = run_case_safe(c)
             bad = next((s for s in rr.get("steps", []) if "diff" in s), None)
             if bad:
-                w = f"after step {rr['steps'].index(bad) + 1} ({bad['op']}) of {[s['op'] for s in c['history']]}: {bad['diff']}"
+                w = f"after step {rr['steps'].index(bad) + 1} ({bad['op']}) of {op_labels(c['history'])}: {bad['diff']}"
         ops = [s["op"] for s in c.get("history", [])]
         ctx.violation("real behaviour violates C07: " + cls, {"case": c, "detail": w}, kind="concrete",
                       match_info={"failure": cls, "last_ops": ops[-2:] if ops else None})
@@ -316,14 +771,14 @@ def run(ctx: core.Ctx):
 
 
 def history_fails(case):
-    r = run_history_safe(case)
+    r = run_case_safe(case)
     return "__error__" in r or any("diff" in s for s in r["steps"])
 
 
 def shrink_history(case):
     cur = json.loads(json.dumps(case))
     # cut after the failing step, then drop earlier steps one at a time
-    r = run_history_safe(cur)
+    r = run_case_safe(cur)
     if "steps" in r:
         cur["history"] = cur["history"][: len(r["steps"])]
     budget = 12
